@@ -479,4 +479,31 @@ func c16Probes(ctx *vkit.Ctx, routes []c16Route, words []string) {
 		}
 		return strings.Join(fails, " || ")
 	})
+	// D-C16-10 — the event stream carries the events of every index
+	ctx.Probe("D-C16-10", func(cs *vkit.Case) string {
+		c16Artifacts = false
+		f := newC16Fix(ctx, cs, [3]string{"alpha", "beta", "gamma"})
+		defer f.close()
+		var fails []string
+		tR := f.mint("read", []string{"alpha"})
+		cs.Op("read[alpha]: GET /events/stream (no index named; control: must be refused)")
+		code, evs, _, _ := f.streamEpisode(tR, "/events/stream", "alpha", []string{"beta"})
+		if code >= 200 && code < 300 {
+			fails = append(fails, fmt.Sprintf("GET /events/stream with a READ token restricted to [alpha] answered %d (%d events)", code, len(evs)))
+		}
+		for _, target := range []string{"/events/stream?index=alpha", "/events/stream?index_name=alpha"} {
+			cs.Op("read[alpha]: GET %s while root adds a vector to beta, gamma, then alpha", target)
+			code, evs, raw, seen := f.streamEpisode(tR, target, "alpha", []string{"beta", "gamma"})
+			if !seen {
+				continue // refused, or the stream does not report additions: nothing was read
+			}
+			for _, ev := range evs {
+				if !tR.allows(ev.IndexName) {
+					fails = append(fails, fmt.Sprintf("GET %s with a READ token restricted to [alpha] answered %d and streamed the events of other indexes: %s id %q of index %q (expected: only alpha's events, or a refusal) - http_handlers.go:2127 subscribes to the engine-wide bus and forwards every event; stream: %s", target, code, ev.Type, ev.ID, ev.IndexName, c16Trunc(string(raw))))
+					break
+				}
+			}
+		}
+		return strings.Join(fails, " || ")
+	})
 }
